@@ -223,6 +223,8 @@ pub(crate) struct ZmtpUringHandler {
   is_throttled: AtomicBool,
   multishot_reader: Option<MultishotReader>,
   is_closing: bool,
+  /// True once the Close SQE for this fd has been requested; an fd gets exactly one.
+  close_requested: bool,
   /// Non-blocking delayed close (replaces `thread::sleep`).
   /// Armed when `NetAction::ScheduleClose(Some(delay))` fires; `prepare_sqes` polls it.
   close_deadline: Option<Instant>,
@@ -259,6 +261,7 @@ impl ZmtpUringHandler {
       is_throttled: AtomicBool::new(false),
       multishot_reader: None,
       is_closing: false,
+      close_requested: false,
       close_deadline: None,
       use_send_zerocopy,
       use_recv_multishot,
@@ -398,6 +401,15 @@ impl ZmtpUringHandler {
     ops
   }
 
+  /// Queues the Close SQE unless one was queued before: EOF, a failed send, a peer error and
+  /// a local close can all ask for it, and a second Close would hit a recycled fd number.
+  fn request_close(&mut self, ops: &mut HandlerIoOps) {
+    if !self.close_requested {
+      self.close_requested = true;
+      ops.sqe_blueprints.push(HandlerSqeBlueprint::RequestClose);
+    }
+  }
+
   fn prepare_multishot_cancel(&mut self) -> Option<HandlerSqeBlueprint> {
     if let Some(ref mut reader) = self.multishot_reader {
       reader.prepare_cancel_intent()
@@ -496,7 +508,10 @@ impl UringConnectionHandler for ZmtpUringHandler {
           endpoint_uri: self.worker_io_config.endpoint_uri.clone(),
           error: ZmqError::ConnectionClosed,
         });
-      return HandlerIoOps::new().add_blueprint(HandlerSqeBlueprint::RequestClose);
+      let mut ops = HandlerIoOps::new();
+      self.close_deadline = None;
+      self.request_close(&mut ops);
+      return ops;
     }
 
     if self.is_closing {
@@ -527,8 +542,9 @@ impl UringConnectionHandler for ZmtpUringHandler {
         "ZmtpUringHandler: send SQE failed"
       );
       self.is_closing = true;
+      self.close_deadline = None;
       let mut ops = HandlerIoOps::new();
-      ops.sqe_blueprints.push(HandlerSqeBlueprint::RequestClose);
+      self.request_close(&mut ops);
       return ops;
     }
     HandlerIoOps::new()
@@ -620,7 +636,7 @@ impl UringConnectionHandler for ZmtpUringHandler {
     if let Some(deadline) = self.close_deadline {
       if Instant::now() >= deadline {
         self.close_deadline = None;
-        ops.sqe_blueprints.push(HandlerSqeBlueprint::RequestClose);
+        self.request_close(&mut ops);
       }
     }
 
@@ -638,7 +654,9 @@ impl UringConnectionHandler for ZmtpUringHandler {
 
   fn close_initiated(&mut self, _interface: &UringWorkerInterface<'_>) -> HandlerIoOps {
     info!(fd = self.fd, "ZmtpUringHandler: close_initiated");
-    if self.is_closing {
+    // `is_closing` alone is not a reason to return: a peer error sets it (to stop reading) and
+    // then comes here for the actual close.
+    if self.close_requested || self.close_deadline.is_some() {
       return HandlerIoOps::new();
     }
     self.is_closing = true;
@@ -649,7 +667,7 @@ impl UringConnectionHandler for ZmtpUringHandler {
         ops.sqe_blueprints.push(cancel_bp);
       }
     }
-    ops.sqe_blueprints.push(HandlerSqeBlueprint::RequestClose);
+    self.request_close(&mut ops);
     ops
   }
 
